@@ -84,6 +84,24 @@ class SceneDriver:
         # an event of two particles is the concatenation of the two single-particle events
         for a in range(3):
             self.same('scene %d, antenna %d: event [p1, p2] vs events [p1] and [p2]' % (sc, a), both[a], self.blocks[a][0] + self.blocks[a][1])
+        # every received signal sits on the kernel's time grid delayed by the time of flight of one of the tracer's solutions,
+        # in the order of the solutions (the kernel may drop solutions, e.g. beyond its off-cone cut, but never reorders)
+        ice, tracer = scene_model(sc)
+        for a in range(3):
+            for pi in (0, 1):
+                sols = tracer(np.array(PARTS[pi]['vertex'], dtype=float), np.array(ANTS[a], dtype=float), ice).solutions
+                tofs = [float(s_.tof) for s_ in sols]
+                pos = 0
+                for k, (t, v) in enumerate(self.blocks[a][pi]):
+                    d = float(t[0] - TIMES[0])
+                    while pos < len(tofs) and abs(tofs[pos] - d) > 1e-15 + 1e-12 * abs(d):
+                        pos += 1
+                    if pos == len(tofs):
+                        raise Divergence('scene %d, antenna %d, particle %d: start of received signal %d minus start of the kernel grid' % (sc, a, pi, k),
+                                         'the time of flight of a (later) ray solution %s' % tofs, d)
+                    if not np.allclose(t - t[0], TIMES - TIMES[0], rtol=0, atol=1e-18):
+                        raise Divergence('scene %d, antenna %d, particle %d: grid of received signal %d' % (sc, a, pi, k), 'the kernel grid, delayed', 'another grid')
+                    pos += 1
         if not any(both[a] for a in range(3)):
             raise Divergence('scene %d' % sc, 'some antenna receives a signal (vacuity)', 'none does')
 
